@@ -193,6 +193,9 @@ pub struct RecGen {
     /// one run in `many_1_in` takes its record count from the ladder (1 500 everywhere but
     /// where rows are cheap and block arithmetic on the record count is the likely slip)
     pub many_1_in: u64,
+    /// weight of the 2^16 rung among the "just past a power of two" record counts (the
+    /// others: 2^10: 2, 2^12: 2, 2^14: 5); 3 where a row is cheap, 1 elsewhere
+    pub overflow_top_w: u64,
 }
 
 const ALPHAS: [Alpha; 7] = [
@@ -252,7 +255,17 @@ impl RecGen {
                 2..=6 => rng.range(0, 6) as i64 - 3,
                 _ => rng.range(1, 40) as i64,
             };
-            (centre as i64 + delta).max(1) as usize
+            let n = (centre as i64 + delta).max(1) as usize;
+            // a third of the ladder runs are "just past a power of two" on purpose: a few
+            // records more than 2^14 or 2^16 (the natural capacities of a reorder ring, a
+            // window of parked rows, a turn counter), so that a worker stopped in the middle
+            // of one of the first records (starve scheduler) sees the others get a whole
+            // capacity ahead before the input ends
+            if rng.chance(1, 3) {
+                [1024usize, 4096, 16384, 65536][rng.weighted(&[2, 2, 5, self.overflow_top_w])] + rng.usize(1, 40)
+            } else {
+                n
+            }
         } else {
             n
         };
